@@ -12,7 +12,7 @@ From Coq Require Import ZArith List String Bool.
 From NG Require Import Gen.C12Consts
                        V1.CompileItems V1.Compile V1.CompileRun V1.Compile_proofs
                        V2.ClosedAst V2.Closed V2.Closed_proofs V2.ClosedGen_proofs
-                       V2.Expand V2.Expand_proofs.
+                       V2.Expand V2.Expand_proofs V2.Typed V2.Typed_proofs V2.ExpandTyping V2.ExpandTyping_proofs.
 Import ListNotations.
 Open Scope string_scope.
 
@@ -117,17 +117,56 @@ Theorem C12_v2_composites_expanded_not_slid :
 Proof. exact composites_expanded_not_slid. Qed.
 Print Assumptions C12_v2_composites_expanded_not_slid.
 
-(* the expansion, for the modelled fragment (V2/Expand.v: if/else, while with break/continue,
-   match or-/and-groups of events, when / or when / else with single-event cases; tied to the
-   real expand_elements by the correspondence, modulo renaming of the generated names).
-   Full statement wanted:  forall ss, closed_v2 (expand ss).
-   Proved (`_partial`): its static part for source trees of ANY nesting - every label a Goto /
-   ForkHead / CatchPatternFailure / Break / Continue refers to is defined in the expanded flow,
-   every MergeHeads has its ForkHead, only primitives remain.  Missing: scope balance and
-   failure-handler balance along every path of the expansion as a theorem; it is established
-   per program by closedb (C12_v2_checker_sound) on every real expanded flow. *)
-Definition C12_v2_expand_closed_statement : Prop := forall ss, closed_v2 (expand ss).
+(* the expansion (V2/Expand.v, tied to the real expand_elements by the correspondence of
+   harness/c12.py modulo renaming of the generated names).
+   MODELLED, any nesting:
+     if / elif / else;  while with break / continue;  return;  abort;
+     match on events as any and/or group (the source tree carries its disjunctive normal form:
+       one blocking element, an and-group, or an or-structure over them);
+     start of flows and actions as any and/or group (single, sequence, or or-structure);
+     await of flows and actions (and the bare flow call) as any and/or group - start then match
+       `Finished`, the or-structure variant opens and closes a scope;
+     activate of one flow or an and-group of flows;
+     when / or when / else whose case triggers are an event, flow or action or an AND-group of
+       them (REPAIRED expansion: else group emitted once, EndScope on the else path);
+     plain statements (assignment, send of an internal event, log, print, priority, global) and
+       single blocking statements (match of one event, send of an action event).
+   NOT MODELLED (such flows are validated per program by closedb - C12_v2_checker_sound):
+     when-cases whose trigger contains an OR: the source emits the case label, the then-body and
+       the failure block once per or-branch of the trigger (duplicate labels, last one wins) and the
+       copies of the then-body share their Break / Continue objects, so that an inner loop of a
+       later copy jumps into the first copy - closed, but not a function of the source tree alone;
+     send / stop / deactivate, singly or on groups (single deactivate is one plain element; stop of
+       a single element and activate of an or-group raise NotImplementedError in the source);
+     `as $ref` captures on members of a group and return-value assignments `$x = await ..`
+       (they only add Assignment elements), `$x = ..."instruction"` (rewritten to an await of
+       GenerateValueAction plus an assignment);
+     user labels, doc strings, `pass` (steps-over elements without targets).
+   For every source tree of the modelled constructs in which break / continue occur only inside
+   loops, the expanded flow is closed: along every path of a head no label lookup fails, every
+   BeginScope the expansion emits (when, await or-structure) is closed again - on the case paths,
+   the else path, the failure paths and the break / continue / return paths -, CatchPatternFailure
+   pushes and pops are balanced, the flow end is reached with no open scope; all referenced labels
+   exist, every MergeHeads has its ForkHead, only primitives remain, every Break / Continue names
+   its loop.
+   Proof: a typing discipline (V2/Typed.v: one linear pass with a declared state per label),
+   proved sound w.r.t. the head-token semantics, and a typing derivation for every expansion
+   by induction over the source tree (V2/ExpandTyping_proofs.v). *)
+Theorem C12_v2_expand_closed :
+  forall ss, wf_list false ss = true -> closed_v2 (expand ss).
+Proof. exact expand_closed. Qed.
+Print Assumptions C12_v2_expand_closed.
 
+(* soundness of the typing discipline itself, for any flow and any functional declaration G *)
+Theorem C12_v2_typing_sound :
+  forall (G : string -> state -> Prop),
+    (forall l s1 s2, G l s1 -> G l s2 -> s1 = s2) ->
+    forall es fin, typed G (Some ([], [])) es fin -> end_ok fin -> labels_okb es = true ->
+    forall c, reach es c -> forall x, ~ fails es c x.
+Proof. exact typed_sound. Qed.
+Print Assumptions C12_v2_typing_sound.
+
+(* its static part holds without the well-formedness hypothesis *)
 Theorem C12_v2_expand_static_closed_partial :
   forall ss, labels_okb (expand ss) = true /\ no_compositeb (expand ss) = true /\ merges_okb (expand ss) = true.
 Proof. exact expand_static_closed. Qed.
